@@ -101,9 +101,32 @@ def parseChunks : Nat → Bytes → Option (Bytes × Bytes)
           | 13 :: 10 :: r => (parseChunks fuel r).map fun (more, r') => (data ++ more, r')
           | _ => none
 
+/-- the trailer fields behind the last chunk of a chunked body (net/http keeps them in `Trailer`; the handlers add
+    them to the header fields once the body has been read) -/
+def chunkTrailers : Nat → Bytes → List (Bytes × Bytes)
+  | 0, _ => []
+  | fuel + 1, bs =>
+    match takeLine bs with
+    | none => []
+    | some (sizeLine, rest) =>
+      match hexNat? (sizeLine.takeWhile (· != 59)) with
+      | none => []
+      | some 0 => ((parseHeaders (rest.length + 1) rest).map (·.1)).getD []
+      | some n =>
+        if rest.length < n + 2 then []
+        else
+          match (rest.drop n) with
+          | 13 :: 10 :: r => chunkTrailers fuel r
+          | _ => []
+
 inductive Framing where
   | none | length (n : Nat) | chunked | untilClose
   deriving Repr
+
+def trailersOf (f : Framing) (bs : Bytes) : List (Bytes × Bytes) :=
+  match f with
+  | .chunked => chunkTrailers (bs.length + 1) bs
+  | _ => []
 
 def framingOf (isRequest : Bool) (status : Nat) (hs : List (Bytes × Bytes)) : Framing :=
   if !isRequest && (status / 100 == 1 || status == 204 || status == 304) then .none
@@ -135,7 +158,8 @@ def parseRequest (bs : Bytes) : Option (Message × Bytes) :=
       match versionMinor? v, parseHeaders (rest.length + 1) rest with
       | some minor, some (hs, rest) =>
         (parseBody (framingOf true 0 hs) rest).map fun (body, r) =>
-          ({ isRequest := true, method := m, target := t, minor, headers := hs, body }, r)
+          ({ isRequest := true, method := m, target := t, minor,
+             headers := hs ++ trailersOf (framingOf true 0 hs) rest, body }, r)
       | _, _ => none
     | _ => none
 
@@ -149,7 +173,7 @@ def parseResponse (bs : Bytes) : Option (Message × Bytes) :=
       match versionMinor? v, decNat? code, parseHeaders (rest.length + 1) rest with
       | some minor, some status, some (hs, rest) =>
         (parseBody (framingOf false status hs) rest).map fun (body, r) =>
-          ({ isRequest := false, status, minor, headers := hs, body }, r)
+          ({ isRequest := false, status, minor, headers := hs ++ trailersOf (framingOf false status hs) rest, body }, r)
       | _, _, _ => none
     | _ => none
 
@@ -175,10 +199,12 @@ def canonicalName (n : Bytes) : Bytes :=
       y :: go (x = 45) rest
   go true n
 
-/-- framing and host headers are rebuilt by net/http and the HAR conversion: not compared -/
+/-- framing and host headers are rebuilt by net/http and the HAR conversion: not compared (`Trailer`, the
+    announcement of trailer fields, is consumed by net/http like `Transfer-Encoding`) -/
 def isFramingHeader (n : Bytes) : Bool :=
   let l := Wire.lower n
-  l == bytesOfString "host" || l == bytesOfString "content-length" || l == bytesOfString "transfer-encoding"
+  l == bytesOfString "host" || l == bytesOfString "content-length" || l == bytesOfString "transfer-encoding" ||
+    l == bytesOfString "trailer"
 
 def reportedHeaders (hs : List (Bytes × Bytes)) : List (Bytes × Bytes) :=
   let kept := (hs.filter fun h => !isFramingHeader h.1).map fun h => (canonicalName h.1, h.2)
